@@ -11,7 +11,7 @@
 static cholmod_sparse* flatten_ndarray_to_sparse(struct ndsparse *array,
     size_t nrow, size_t ncol, cholmod_common* c);
 cholmod_sparse* calc_penalty(uint64_t* nsplines, double *knots, uint32_t ndim, uint32_t i,
-    uint32_t order, uint32_t porder, int mono, cholmod_common* c);
+    uint32_t order, uint32_t porder, int monodim, cholmod_common* c);
 
 int
 glamfit_complex(const struct ndsparse* data, const double* weights, const double* const* coords,
@@ -303,7 +303,7 @@ glamfit_complex(const struct ndsparse* data, const double* weights, const double
 
 cholmod_sparse*
 add_penalty_term(uint64_t* nsplines, double* knots, uint32_t ndim, uint32_t dim, uint32_t order,
-   uint32_t porder, double scale, int mono, cholmod_sparse* penalty,
+   uint32_t porder, double scale, int monodim, cholmod_sparse* penalty,
    cholmod_common* c)
 {
 	cholmod_sparse* penalty_tmp, * penalty_chunk;
@@ -313,7 +313,7 @@ add_penalty_term(uint64_t* nsplines, double* knots, uint32_t ndim, uint32_t dim,
 		return (penalty);		
 
 	penalty_chunk = calc_penalty(nsplines, knots, ndim, dim, order,
-	    porder, mono, c);
+	    porder, monodim, c);
 	penalty_tmp = penalty;
 
 	/* Add each chunk to the big matrix, scaling by smooth */
@@ -410,13 +410,14 @@ divided_diffs(int order, int porder, int j, double* knots, double* out)
 
 cholmod_sparse*
 calc_penalty(uint64_t* nsplines, double* knots, uint32_t ndim, uint32_t dim, uint32_t order,
-    uint32_t porder, int mono, cholmod_common* c)
+    uint32_t porder, int monodim, cholmod_common* c)
 {
 	cholmod_sparse* finitediff, * fd_trans, * DtD, * result;
 	cholmod_sparse* tmp, * tmp2;
 	cholmod_triplet* trip;
 	double divd[porder + 1];
 	long i, row, col;
+	int tsplines;
 
 	/* First, we will compute the finite difference matrix,
 	 * which looks like this for order 2:
@@ -444,7 +445,7 @@ calc_penalty(uint64_t* nsplines, double* knots, uint32_t ndim, uint32_t dim, uin
 	finitediff = cholmod_l_triplet_to_sparse(trip, trip->nnz, c);
 	cholmod_l_free_triplet(&trip, c);
 
-	if (mono) {
+	if (monodim >= 0 && (uint32_t)monodim == dim) {
 		/* If this dimension is the monotonic one, convert
 		 * the basis to T-Splines */
 		cholmod_sparse *old, *tril;
@@ -469,13 +470,40 @@ calc_penalty(uint64_t* nsplines, double* knots, uint32_t ndim, uint32_t dim, uin
 
 	/* Next take kronecker products to form the full P */
 
+	/*
+	 * The coefficients along the monotonic dimension are T-Spline
+	 * coefficients in every term of the objective, so in the penalty of
+	 * any other dimension the factor for the monotonic one is T'T rather
+	 * than the identity. kronecker_product() multiplies stored entries, so
+	 * with two factors that are not diagonal both triangles must be stored.
+	 */
+	tsplines = (monodim >= 0 && (uint32_t)monodim < ndim &&
+	    (uint32_t)monodim != dim);
+	if (tsplines) {
+		tmp = cholmod_l_copy(DtD, 0, 1, c);
+		cholmod_l_free_sparse(&DtD, c);
+		DtD = tmp;
+	}
+
 	tmp = NULL;
 	result = NULL;
 	for (i = 0; i < ndim; i++) {
-		tmp2 = (i == dim) ? DtD : cholmod_l_speye(
-		    nsplines[i], nsplines[i],
-		    CHOLMOD_REAL, c);
-		tmp2->stype = 1; /* The identity matrix is always symmetric. */
+		if (i == dim) {
+			tmp2 = DtD;
+		} else if (tsplines && i == monodim) {
+			cholmod_sparse *tril, *tril_trans;
+
+			tril = cholmod_tril(nsplines[i], c);
+			tril_trans = cholmod_l_transpose(tril, 1, c);
+			tmp2 = cholmod_l_ssmult(tril_trans, tril, 0, 1, 0, c);
+			cholmod_l_free_sparse(&tril, c);
+			cholmod_l_free_sparse(&tril_trans, c);
+		} else {
+			tmp2 = cholmod_l_speye(nsplines[i], nsplines[i],
+			    CHOLMOD_REAL, c);
+		}
+		if (!tsplines)
+			tmp2->stype = 1; /* Symmetric, upper triangle stored. */
 
 		if (result == NULL) {
 			result = tmp2;
